@@ -84,6 +84,8 @@ var (
 	dartCtorRe     = regexp.MustCompile(`const \w+\(([^)]*)\);`)
 )
 
+var dartImplementsRe = regexp.MustCompile(`class \w+ implements ([^{]+)\{`)
+
 // c06Oracle checks a real declaration against the Go side directly: keys, constructor
 // arguments, union tags, enum tables ("" = fine).
 func c06Oracle(env *irdump.Env, d *irdump.Decl, text string) string {
@@ -124,6 +126,30 @@ func c06Oracle(env *irdump.Env, d *irdump.Decl, text string) string {
 		}
 		if m := dartCtorRe.FindStringSubmatch(text); m == nil || len(list(m[1])) != len(keys) {
 			return fmt.Sprintf("constructor arguments do not match the %d exported fields", len(keys))
+		}
+		// the class implements exactly the unions the struct is a member of, each once
+		var impl []string
+		if m := dartImplementsRe.FindStringSubmatch(text); m != nil {
+			impl = list(m[1])
+		}
+		want := map[string]bool{}
+		for _, q := range d.Implements {
+			if u := byQ[q]; u != nil && u.Name != "" {
+				want[strings.ToUpper(u.Name[:1])+u.Name[1:]] = true
+			}
+		}
+		seen := map[string]bool{}
+		for _, n := range impl {
+			if seen[n] {
+				return fmt.Sprintf("the class implements %s twice: %v", n, impl)
+			}
+			seen[n] = true
+			if !want[n] {
+				return fmt.Sprintf("the class implements %s, which is not a union the struct is a member of (%v)", n, d.Implements)
+			}
+		}
+		if len(seen) != len(want) {
+			return fmt.Sprintf("the class implements %v, the struct is a member of %v", impl, d.Implements)
 		}
 	case "union":
 		var tags []string
